@@ -436,7 +436,7 @@ func genLineFilter(rt *rapid.T, d dbStrings) refeval.Stage {
 	needle := genLineNeedle(rt, d)
 	// DESIGN section 4 item 12 (the C10 builder owns the repair): backslashes and a trailing
 	// quote in LIKE patterns. Mostly steer around, keep a trickle to count the region.
-	if rapid.IntRange(0, 9).Draw(rt, "keepbs") > 0 {
+	if rapid.IntRange(0, 9).Draw(rt, "keepbs") > 5 {
 		needle = strings.ReplaceAll(needle, `\`, "/")
 		needle = strings.TrimRight(needle, "'")
 	}
